@@ -41,6 +41,9 @@ enum Kind {
     InitArgs,
     /// check_file; the variant says how the program is split over files
     File(FileVariant),
+    /// program text outside the neutral AST (record tuple shorthand, enumeration
+    /// shorthand) with the verdict of the small model in `shorthand_cases`
+    Raw { text: String, expect_accept: bool, why: String },
 }
 
 #[derive(Clone, Copy, Debug, PartialEq)]
@@ -81,10 +84,17 @@ impl Kind {
             Kind::Program => "program".into(),
             Kind::InitArgs => "init-args".into(),
             Kind::File(v) => format!("file:{}", v.name()),
+            Kind::Raw { .. } => "raw".into(),
         }
     }
-    fn from_name(s: &str) -> Option<Kind> {
+    fn from_case(case: &Value) -> Option<Kind> {
+        let s = case["kind"].as_str().unwrap_or("program");
         match s {
+            "raw" => Some(Kind::Raw {
+                text: case["program"].as_str()?.to_string(),
+                expect_accept: case["raw_expect_accept"].as_bool()?,
+                why: case["raw_why"].as_str().unwrap_or("").to_string(),
+            }),
             "program" => Some(Kind::Program),
             "init-args" => Some(Kind::InitArgs),
             _ => s.strip_prefix("file:").and_then(FileVariant::from_name).map(Kind::File),
@@ -105,14 +115,115 @@ const L_WF: u64 = 2;
 const L_MUTANTS: u64 = 3;
 const L_INIT: u64 = 4;
 const L_FILES: u64 = 5;
-const LEVEL_NAMES: [&str; 6] = [
+const L_SHORTHAND: u64 = 6;
+const L_LONG: u64 = 7;
+const LEVEL_NAMES: [&str; 8] = [
     "universe",
     "universe-3-definitions-reduced",
     "well-formed-by-construction",
     "single-fault-mutants",
     "init-args",
     "files-and-imports",
+    "field-shorthands",
+    "long-alias-chains",
 ];
+
+/// Alias chains `t0 = t1; ...; t{n-1} = t{n}; t{n} = <end>` of length n used as method
+/// type, actor, constructor result and data type; cycles of length n; a chain into a
+/// 1-cycle; a chain into an undefined name.
+fn long_chain_cases(lengths: &[usize]) -> Vec<(String, Prog)> {
+    use refmodel::ty::Prim;
+    let t = |i: usize| format!("t{i}");
+    let chain = |n: usize, end: PTy| -> Vec<(String, PTy)> {
+        let mut d: Vec<(String, PTy)> = (0..n).map(|i| (t(i), PTy::Var(t(i + 1)))).collect();
+        d.push((t(n), end));
+        d
+    };
+    let unit = || PTy::func(vec![], vec![], vec![]);
+    let serv = || PTy::Service(vec![("m".to_string(), unit())]);
+    let meth = |ty: PTy| Some(PActor::Service(PTy::Service(vec![("m".to_string(), ty)])));
+    let mut out = vec![];
+    for &n in lengths {
+        let mut add = |name: &str, defs: Vec<(String, PTy)>, actor: Option<PActor>| {
+            out.push((format!("{name}-{n}"), Prog { defs, actor, actor_name: None }));
+        };
+        add("chain-to-func-as-method", chain(n, unit()), meth(PTy::var("t0")));
+        add("chain-to-service-as-actor", chain(n, serv()), Some(PActor::Service(PTy::var("t0"))));
+        add("chain-to-service-as-constructor-result", chain(n, serv()), Some(PActor::Class(vec![(None, PTy::Prim(Prim::Nat))], PTy::var("t0"))));
+        add("chain-to-nat-as-method", chain(n, PTy::Prim(Prim::Nat)), meth(PTy::var("t0")));
+        add("chain-to-func-as-actor", chain(n, unit()), Some(PActor::Service(PTy::var("t0"))));
+        add("cycle", (0..n.max(1)).map(|i| (t(i), PTy::Var(t((i + 1) % n.max(1))))).collect(), None);
+        add("chain-into-1-cycle", chain(n, PTy::Var(t(n))), None);
+        add("chain-into-undefined", chain(n, PTy::var("zq_undefined")), None);
+        add(
+            "chain-to-record-as-argument",
+            chain(n, PTy::Record(vec![(mclib::progs::PLabel::named("a"), PTy::Prim(Prim::Nat)), (mclib::progs::PLabel::named("b"), PTy::opt(PTy::var("t0")))])),
+            meth(PTy::func(vec![PTy::var("t0")], vec![PTy::var(&t(n / 2))], vec![])),
+        );
+    }
+    out
+}
+
+/// Records whose fields are written `<nat> : nat`, `"a" : nat` or just `nat` (tuple
+/// shorthand: "N is either 0 or previous + 1"), and variants written as bare tags
+/// (enumeration shorthand), of up to 3 fields; as a definition and inside an actor method.
+/// Model: assign the ids as the spec says; well-formed iff every id < 2^32 and no id twice.
+fn shorthand_cases() -> Vec<(String, bool, String)> {
+    #[derive(Clone, Copy)]
+    enum L {
+        Unnamed,
+        Id(u64),
+        A,
+    }
+    let labels = [L::Unnamed, L::Id(0), L::Id(1), L::Id(2), L::A, L::Id(98), L::Id(4294967295)];
+    let tags = [L::Id(0), L::Id(1), L::A, L::Id(97)];
+    let mut out = vec![];
+    let mut lists: Vec<(bool, Vec<L>)> = vec![];
+    for (is_record, alphabet) in [(true, &labels[..]), (false, &tags[..])] {
+        let mut level: Vec<Vec<L>> = vec![vec![]];
+        for _ in 0..=3 {
+            for l in &level {
+                lists.push((is_record, l.clone()));
+            }
+            level = level.iter().flat_map(|l| alphabet.iter().map(move |x| { let mut m = l.clone(); m.push(*x); m })).collect();
+        }
+    }
+    for (is_record, fs) in lists {
+        let mut ids: Vec<u64> = vec![];
+        let mut prev: Option<u64> = None;
+        let mut parts = vec![];
+        for f in &fs {
+            let id = match f {
+                L::Unnamed => prev.map(|p| p + 1).unwrap_or(0),
+                L::Id(n) => *n,
+                L::A => refmodel::hash::idl_hash("a") as u64,
+            };
+            prev = Some(id);
+            ids.push(id);
+            parts.push(match (f, is_record) {
+                (L::Unnamed, _) => "nat".to_string(),
+                (L::Id(n), true) => format!("{n} : nat"),
+                (L::A, true) => "\"a\" : nat".to_string(),
+                (L::Id(n), false) => format!("{n}"),
+                (L::A, false) => "\"a\"".to_string(),
+            });
+        }
+        let mut sorted = ids.clone();
+        sorted.sort();
+        let dup = sorted.windows(2).any(|w| w[0] == w[1]);
+        let range = ids.iter().any(|i| *i >= 1u64 << 32);
+        let why = match (dup, range) {
+            (false, false) => "well-formed",
+            (true, false) => "duplicate-field-id",
+            (false, true) => "field-id-out-of-range",
+            (true, true) => "duplicate-field-id+field-id-out-of-range",
+        };
+        let ty = format!("{} {{ {} }}", if is_record { "record" } else { "variant" }, parts.join("; "));
+        out.push((format!("type t = {ty};\n"), !dup && !range, why.to_string()));
+        out.push((format!("service : {{ \"m\" : ({ty}) -> () }}\n"), !dup && !range, why.to_string()));
+    }
+    out
+}
 
 struct Scope {
     pre: Preimage,
@@ -125,6 +236,8 @@ struct Scope {
     mutants: Vec<(String, Prog)>,
     /// stride over `wf ++ mutants` for the init-args and file levels
     list_stride: usize,
+    shorthand: Vec<(String, bool, String)>,
+    long: Vec<(String, Prog)>,
     notes: Vec<String>,
 }
 
@@ -200,7 +313,7 @@ impl Scope {
             ),
             format!("U_P: {} distinct programs; {} single-fault mutants produced, {} distinct and different from U_P", wf.len(), produced, mutants.len()),
         ];
-        Scope { pre, x, uni, uni3, wf, mutants, list_stride: tier.pick(3, 1), notes }
+        Scope { pre, x, uni, uni3, wf, mutants, list_stride: tier.pick(8, 1), shorthand: shorthand_cases(), long: long_chain_cases(tier.pick(&[8, 64, 512][..], &[8, 64, 512, 2048][..])), notes }
     }
 
     fn listed(&self, i: usize) -> (&'static str, String, &Prog) {
@@ -223,6 +336,8 @@ impl Scope {
             L_MUTANTS => self.mutants.len() as u64,
             L_INIT => self.listed_len() as u64,
             L_FILES => (self.listed_len() * FILE_VARIANTS.len()) as u64,
+            L_SHORTHAND => self.shorthand.len() as u64,
+            L_LONG => self.long.len() as u64,
             _ => 0,
         }
     }
@@ -245,6 +360,14 @@ impl Scope {
                 let (family, fault, p) = self.listed((index / n) as usize * self.list_stride);
                 Case { kind: Kind::File(FILE_VARIANTS[(index % n) as usize]), family, fault, prog: p.clone() }
             }
+            L_SHORTHAND => {
+                let (text, expect_accept, why) = self.shorthand[index as usize].clone();
+                Case { kind: Kind::Raw { text, expect_accept, why }, family: "shorthand", fault: "n/a".into(), prog: Prog::default() }
+            }
+            L_LONG => {
+                let (k, p) = &self.long[index as usize];
+                Case { kind: Kind::Program, family: "long-chain", fault: k.clone(), prog: p.clone() }
+            }
             _ => panic!("no such level"),
         }
     }
@@ -254,7 +377,7 @@ impl Scope {
 // one observation: reference verdict, subject verdict, findings
 
 struct Worker {
-    journal: Option<File>,
+    journal: Option<(File, PathBuf)>,
     dir: PathBuf,
     shrunk: usize,
 }
@@ -274,13 +397,20 @@ fn scratch_root() -> PathBuf {
 impl Worker {
     fn new(journal_dir: Option<&str>) -> Worker {
         let n = WORKER_SEQ.fetch_add(1, Ordering::SeqCst);
-        let dir = scratch_root().join(format!("c14-files-{}-{}", std::process::id(), n));
-        let _ = std::fs::create_dir_all(&dir);
-        let journal = journal_dir.map(|d| File::create(format!("{d}/t{n}")).expect("journal file"));
+        // under the supervisor the scratch files live next to the journal (the supervisor
+        // removes the whole directory, also after the worker process died)
+        let dir = match journal_dir {
+            Some(d) => PathBuf::from(d).join(format!("files-{n}")),
+            None => scratch_root().join(format!("c14-files-{}-{}", std::process::id(), n)),
+        };
+        let journal = journal_dir.map(|d| {
+            let p = PathBuf::from(format!("{d}/t{n}"));
+            (File::create(&p).expect("journal file"), p)
+        });
         Worker { journal, dir, shrunk: 0 }
     }
     fn note(&self, level: u64, index: u64) {
-        if let Some(j) = &self.journal {
+        if let Some((j, _)) = &self.journal {
             let mut b = [0u8; 16];
             b[..8].copy_from_slice(&level.to_le_bytes());
             b[8..].copy_from_slice(&index.to_le_bytes());
@@ -291,6 +421,10 @@ impl Worker {
 impl Drop for Worker {
     fn drop(&mut self) {
         let _ = std::fs::remove_dir_all(&self.dir);
+        // a worker that ends normally has no case in flight
+        if let Some((_, p)) = &self.journal {
+            let _ = std::fs::remove_file(p);
+        }
     }
 }
 
@@ -314,6 +448,8 @@ struct Obs {
     findings: Vec<Finding>,
     /// the case does not apply to this program (e.g. import-service without an actor to split off)
     skipped: bool,
+    /// accepted, but the Motoko generator was not run (a method name is not an identifier)
+    motoko_not_applicable: bool,
 }
 
 fn panic_location(msg: &str) -> &str {
@@ -360,7 +496,29 @@ fn motoko_applicable(p: &Prog) -> bool {
     })
 }
 
+/// Self-test hook of the supervisor (never set in a normal run): a program whose text
+/// contains `C14_TEST_ABORT_ON` aborts the process, one containing `C14_TEST_HANG_ON` hangs.
+fn test_hooks(text: &str) {
+    static HOOKS: std::sync::OnceLock<(Option<String>, Option<String>)> = std::sync::OnceLock::new();
+    let (abort, hang) = HOOKS.get_or_init(|| (std::env::var("C14_TEST_ABORT_ON").ok(), std::env::var("C14_TEST_HANG_ON").ok()));
+    if let Some(a) = abort {
+        if text.contains(a.as_str()) {
+            std::process::abort();
+        }
+    }
+    if let Some(h) = hang {
+        if text.contains(h.as_str()) {
+            loop {
+                std::thread::sleep(Duration::from_secs(1));
+            }
+        }
+    }
+}
+
 fn observe(sc: &Scope, kind: &Kind, prog: &Prog, w: &mut Worker, deep: bool) -> Obs {
+    if let Kind::Program = kind {
+        test_hooks(&prog.to_did());
+    }
     let reasons = wf::reasons(prog);
     let mut findings = vec![];
     let mut skipped = false;
@@ -375,6 +533,18 @@ fn observe(sc: &Scope, kind: &Kind, prog: &Prog, w: &mut Worker, deep: bool) -> 
             if let (true, Some(acc)) = (deep, &acc) {
                 let model = if reasons.is_empty() { Some(prog) } else { None };
                 for pb in subject::downstream(&text, acc, model, None, motoko_applicable(prog)) {
+                    findings.push(Finding { clause: pb.clause, detail: pb.op, msg: pb.msg });
+                }
+            }
+            verdict = v;
+        }
+        Kind::Raw { text: t, expect_accept: e, why } => {
+            text = t.clone();
+            expect_accept = *e;
+            expect_why = why.clone();
+            let (v, acc) = subject::front(&text);
+            if let (true, Some(acc)) = (deep, &acc) {
+                for pb in subject::downstream(&text, acc, None, None, true) {
                     findings.push(Finding { clause: pb.clause, detail: pb.op, msg: pb.msg });
                 }
             }
@@ -401,6 +571,9 @@ fn observe(sc: &Scope, kind: &Kind, prog: &Prog, w: &mut Worker, deep: bool) -> 
             verdict = subject::front_init_args(&text);
         }
         Kind::File(variant) => {
+            if !w.dir.is_dir() {
+                std::fs::create_dir_all(&w.dir).expect("scratch directory");
+            }
             let main = w.dir.join("main.did");
             let imp = w.dir.join("imp.did");
             let imported_is_class = matches!(prog.actor, Some(PActor::Class(..)));
@@ -495,7 +668,8 @@ fn observe(sc: &Scope, kind: &Kind, prog: &Prog, w: &mut Worker, deep: bool) -> 
             _ => {}
         }
     }
-    Obs { text, reasons, expect_accept, expect_why, verdict, findings, skipped }
+    let motoko_not_applicable = verdict.accepted() && !skipped && !matches!(kind, Kind::InitArgs | Kind::Raw { .. }) && !motoko_applicable(prog);
+    Obs { text, reasons, expect_accept, expect_why, verdict, findings, skipped, motoko_not_applicable }
 }
 
 /// does the observation of a simplified program still show the finding `f` of the original?
@@ -522,7 +696,7 @@ fn check_case(sc: &Scope, case: &Case, w: &mut Worker, rep: &mut Report) {
     rep.evaluations += 1;
     rep.transitions += 1;
     rep.traces_validated += 1;
-    if case.kind == Kind::Program {
+    if matches!(case.kind, Kind::Program | Kind::Raw { .. }) {
         rep.states += 1;
     }
     let accepted = o.verdict.accepted();
@@ -533,6 +707,9 @@ fn check_case(sc: &Scope, case: &Case, w: &mut Worker, rep: &mut Report) {
     if accepted {
         rep.count("accepted", 1);
     }
+    if o.motoko_not_applicable {
+        rep.count("accepted-but-motoko-not-run-(non-identifier-method-name)", 1);
+    }
     let kind = case.kind.name();
     match case.family {
         "universe" => {
@@ -542,12 +719,15 @@ fn check_case(sc: &Scope, case: &Case, w: &mut Worker, rep: &mut Report) {
             }
         }
         _ => {
-            let fault = case.fault.trim_end_matches(|c: char| c.is_ascii_digit() || c == '-');
-            let fault = if case.fault.contains("chain") || case.fault.contains("cycle") { fault } else { &case.fault };
+            // fault kind without its parameters (chain length, end type, cycle length)
+            let fault: &str = match case.fault.find("-chain-") {
+                Some(i) => &case.fault[..i],
+                None => case.fault.trim_end_matches(|c: char| c.is_ascii_digit()).trim_end_matches('-'),
+            };
             rep.outcome(&format!("{kind}:{}:{}:{}", fault, if o.expect_accept { "wf" } else { "ill" }, o.verdict.class()));
             if !o.expect_accept {
                 for r in o.expect_why.split('+') {
-                    rep.count(&format!("mutants-ill-formed-by:{r}"), 1);
+                    rep.count(&format!("expected-reject-by:{r}"), 1);
                 }
             }
         }
@@ -583,7 +763,9 @@ fn check_case(sc: &Scope, case: &Case, w: &mut Worker, rep: &mut Report) {
             continue;
         };
         let key = format!("{}|{}|{}|{}", g.clause, kind, g.detail, om.text.replace('\n', " "));
-        let msg = format!("{}; R8: {}; subject: {}; found in family {} (fault {}) as: {}", g.msg, om.expect_why, om.verdict.text(), case.family, case.fault, o.text.replace('\n', " "));
+        // (which of the many cases that shrink to this one is kept depends on thread timing; the
+        // message names only the minimal case, the originating case is in the case JSON)
+        let msg = format!("{}; R8: {}; subject: {}", g.msg, om.expect_why, om.verdict.text());
         rep.violation(
             &key,
             msg,
@@ -595,6 +777,8 @@ fn check_case(sc: &Scope, case: &Case, w: &mut Worker, rep: &mut Report) {
                 "ast": ast_json::prog_json(&min),
                 "r8": om.expect_why,
                 "found_in": {"family": case.family, "fault": case.fault, "program": o.text},
+                "raw_expect_accept": om.expect_accept,
+                "raw_why": om.expect_why,
             }),
         );
     }
@@ -624,7 +808,13 @@ fn read_dead(path: &Option<String>) -> Vec<Dead> {
 }
 
 fn case_json(c: &Case) -> Value {
-    json!({"kind": c.kind.name(), "family": c.family, "fault": c.fault, "program": c.prog.to_did(), "ast": ast_json::prog_json(&c.prog)})
+    let mut j = json!({"kind": c.kind.name(), "family": c.family, "fault": c.fault, "program": c.prog.to_did(), "ast": ast_json::prog_json(&c.prog)});
+    if let Kind::Raw { text, expect_accept, why } = &c.kind {
+        j["program"] = json!(text);
+        j["raw_expect_accept"] = json!(expect_accept);
+        j["raw_why"] = json!(why);
+    }
+    j
 }
 
 fn run_worker(tier: Tier, journal: Option<String>, dead_file: Option<String>) -> i32 {
@@ -641,11 +831,11 @@ fn run_worker(tier: Tier, journal: Option<String>, dead_file: Option<String>) ->
         let clause = if d.how.starts_with("non-termination") { "non-termination" } else { "worker-death" };
         rep.violation(
             &format!("{clause}|{}|{}", c.kind.name(), c.prog.to_did().replace('\n', " ")),
-            format!("{}: the process running this case {} (family {}, fault {})", clause, d.how, c.family, c.fault),
+            format!("the process running this case alone: {} (family {}, fault {})", d.how, c.family, c.fault),
             case_json(&c),
         );
     }
-    let levels: Vec<(u64, u64)> = vec![(L_WF, 16), (L_MUTANTS, 64), (L_INIT, 64), (L_FILES, 64), (L_UNIVERSE3, 1024), (L_UNIVERSE, 1024)];
+    let levels: Vec<(u64, u64)> = vec![(L_LONG, 1), (L_SHORTHAND, 16), (L_WF, 16), (L_MUTANTS, 64), (L_INIT, 64), (L_FILES, 64), (L_UNIVERSE3, 1024), (L_UNIVERSE, 1024)];
     for (level, chunk) in levels {
         let total = sc.level_total(level);
         if total == 0 {
@@ -774,6 +964,9 @@ fn supervise(tier: Tier) -> i32 {
         let mut inflight: BTreeSet<(u64, u64)> = BTreeSet::new();
         if let Ok(rd) = std::fs::read_dir(&jdir) {
             for e in rd.flatten() {
+                if !e.file_name().to_string_lossy().starts_with('t') {
+                    continue;
+                }
                 if let Ok(b) = std::fs::read(e.path()) {
                     if b.len() == 16 {
                         inflight.insert((u64::from_le_bytes(b[..8].try_into().unwrap()), u64::from_le_bytes(b[8..].try_into().unwrap())));
@@ -792,7 +985,7 @@ fn supervise(tier: Tier) -> i32 {
             let how = match run_child(&["--replay-inner".into(), f.to_string_lossy().into_owned()], Duration::from_secs(60), true) {
                 ChildEnd::Exit(_) => continue,
                 ChildEnd::Signal(s) => format!("died with signal {s}"),
-                ChildEnd::Timeout => "non-termination: did not finish within 60 s".to_string(),
+                ChildEnd::Timeout => "non-termination: no result within 60 s".to_string(),
             };
             eprintln!("C14 supervisor: case {}#{} {}", LEVEL_NAMES[level as usize], index, how);
             dead.push(Dead { level, index, how });
@@ -815,10 +1008,10 @@ fn replay_inner(path: &str) -> i32 {
     let s = std::fs::read_to_string(path).expect("replay file");
     let v: Value = serde_json::from_str(&s).expect("json");
     let case = &v["case"];
-    let kind = Kind::from_name(case["kind"].as_str().unwrap_or("program")).expect("kind");
+    let kind = Kind::from_case(case).expect("kind");
     let prog = ast_json::prog_from(&case["ast"]).expect("ast");
     // only the file variants with a colliding method need the search table
-    let sc = Scope { pre: Preimage::new(), x: String::new(), uni: Universe::new(vec![], vec![None], 0, 0), uni3: None, wf: vec![], mutants: vec![], list_stride: 1, notes: vec![] };
+    let sc = Scope { pre: Preimage::new(), x: String::new(), uni: Universe::new(vec![], vec![None], 0, 0), uni3: None, wf: vec![], mutants: vec![], list_stride: 1, shorthand: vec![], long: vec![], notes: vec![] };
     let _ = &sc.x;
     let mut w = Worker::new(None);
     let o = observe(&sc, &kind, &prog, &mut w, true);
@@ -857,7 +1050,26 @@ fn replay(path: &str) -> i32 {
 
 // ---------------------------------------------------------------------------------------
 
+/// `--probe <file.did>`: what the subject says about an arbitrary text (triage aid; no
+/// reference verdict, because R8 is defined on the AST)
+fn probe(path: &str) -> i32 {
+    let text = std::fs::read_to_string(path).expect("probe file");
+    let t0 = Instant::now();
+    let (v, acc) = subject::front(&text);
+    println!("front end: {} ({:.3} s)", v.text(), t0.elapsed().as_secs_f64());
+    if let Some(acc) = acc {
+        let t0 = Instant::now();
+        let pbs = subject::downstream(&text, &acc, None, None, true);
+        println!("downstream: {} problems ({:.3} s)", pbs.len(), t0.elapsed().as_secs_f64());
+        for p in pbs.iter().take(10) {
+            println!("  {} {} :: {}", p.clause, p.op, p.msg);
+        }
+    }
+    0
+}
+
 struct Args {
+    probe: Option<String>,
     tier: Tier,
     replay: Option<String>,
     replay_inner: Option<String>,
@@ -874,6 +1086,7 @@ fn parse_args() -> Args {
             Ok("thorough") => Tier::Thorough,
             _ => Tier::Quick,
         },
+        probe: None,
         replay: None,
         replay_inner: None,
         worker: false,
@@ -891,6 +1104,10 @@ fn parse_args() -> Args {
             "--replay" => {
                 i += 1;
                 a.replay = args.get(i).cloned();
+            }
+            "--probe" => {
+                i += 1;
+                a.probe = args.get(i).cloned();
             }
             "--replay-inner" => {
                 i += 1;
@@ -918,7 +1135,9 @@ fn main() {
     std::env::set_var("RUST_MIN_STACK", STACK_BYTES.to_string());
     install_quiet_panic_hook();
     let a = parse_args();
-    let code = if let Some(p) = a.replay_inner {
+    let code = if let Some(p) = a.probe {
+        std::thread::Builder::new().stack_size(STACK_BYTES).spawn(move || probe(&p)).expect("spawn").join().unwrap_or(2)
+    } else if let Some(p) = a.replay_inner {
         // the main thread's stack is not ours to declare: run on a thread
         std::thread::Builder::new().stack_size(STACK_BYTES).spawn(move || replay_inner(&p)).expect("spawn").join().unwrap_or(2)
     } else if let Some(p) = a.replay {
